@@ -158,11 +158,14 @@ class Shim:
                 if not existed:
                     shim.tick("created")
                 return c
-        self.saved = (DBM.os, DBM.tempfile, DBM.shutil, DBM.sqlite3)
-        DBM.os, DBM.tempfile, DBM.shutil, DBM.sqlite3 = FakeOS, FakeTemp, FakeShutil, FakeSqlite
+        self.saved = {n: DBM.__dict__[n] for n in ("os", "tempfile", "shutil", "sqlite3") if n in DBM.__dict__}
+        for n, fake in (("os", FakeOS), ("tempfile", FakeTemp), ("shutil", FakeShutil), ("sqlite3", FakeSqlite)):
+            if n in self.saved:
+                setattr(DBM, n, fake)
 
     def uninstall(self):
-        DBM.os, DBM.tempfile, DBM.shutil, DBM.sqlite3 = self.saved
+        for n, real in self.saved.items():
+            setattr(DBM, n, real)
 
     def power_off(self):
         for c in self.conns:
@@ -283,6 +286,10 @@ def run_db_script(sc):
                 if tables:
                     r2 = rows_dump(path, tables)
                     obs["final_rows_kept"] = all(r2.get(t) == rows0[t] for t in tables)
+                if sc.get("check_backup"):
+                    bk2 = [f for f in os.listdir(d) if "backup" in f]
+                    obs["backup_identical_after_restart"] = bool(bk2) and \
+                        open(os.path.join(d, bk2[0]), "rb").read() == before.get("relay.sqlite")
     finally:
         shutil.rmtree(d, ignore_errors=True)
     return obs
